@@ -59,6 +59,14 @@ def make_case(inp):
         if cid_kind == "missing":
             # a CID that is not there, or a folder of that name; the name decides which reader is asked
             cid_path = w.directory(inp["cid_name"]) if inp.get("cid_dir") else w.missing(inp.get("cid_name", "nocid.csv"))
+        elif inp.get("cid_damage"):
+            # a CID that is refused because its container is broken (the programmatic API reports a data format error)
+            name, blob = {"quote": ("cid.csv", b'D,Format,Delimited\nF,"k\n'), "utf8": ("cid.csv", b"D,Format,Delimited\nF,k\xff\xfe\n"),
+                          "notzip": ("cid.ods", b"D,Format,Delimited\nF,k\n"), "notxls": ("cid.xls", b"D,Format,Delimited\nF,k\n"),
+                          "notxlsx": ("cid.xlsx", b"PK\x03\x04 not a workbook")}[inp["cid_damage"]]
+            cid_path = os.path.join(w.path, name)
+            with open(cid_path, "wb") as fh:
+                fh.write(blob)
         else:
             cid_path = w.write_cid(SPEC, broken=(cid_kind == "rejected"))
         paths = []
@@ -153,6 +161,9 @@ def gen_inputs(tier, rnd):
         for files in ([], ["accepted"], ["missing"]):
             yield {"cid": "missing", "files": files, "until": None, "cid_name": cid_name}
             yield {"cid": "missing", "files": files, "until": None, "cid_name": cid_name, "cid_dir": True}
+    for damage in ("quote", "utf8", "notzip", "notxls", "notxlsx"):
+        for files in ([], ["accepted"], ["missing"], ["field"]):
+            yield {"cid": "rejected", "files": files, "until": None, "cid_damage": damage}
     kinds = [k for k in FILES if k != "single"]
     lists = [[]] + [list(p) for n in (1, 2, 3) for p in itertools.product(kinds, repeat=n)]
     if tier == "quick":
